@@ -178,8 +178,11 @@ def body_subscribe(S, t, part):
         if TEMPLATES[part["template"]][1] is None:
             reads = {"a", "c1.enabled"} if c1.enabled else {"b", "c1.enabled"}
     # conditional handler: fires iff the condition holds on the current values
+    # (an earlier handler of the same post changes the value the condition reads: the condition counts when the handler's turn comes)
     fired = []
-    m.events.add_handler("probe{machine.a > machine.b}", lambda **kwargs: fired.append(1))
+    a_new = S.int("a_set_by_earlier_handler", -5, 5)
+    m.events.add_handler("probe", lambda **kwargs: m.variables.set_machine_var("a", a_new), priority=10)
+    m.events.add_handler("probe{machine.a > machine.b}", lambda **kwargs: fired.append(1), priority=1)
     m.events.post("probe")
     t.advance_time_and_run(0.01)
     want = m.variables.get_machine_var("a") > m.variables.get_machine_var("b")
